@@ -277,4 +277,8 @@ def main(tier, seed):
             rep.violation("standin.level2-covariance", payload)
     if not fails and not sfails and msg:
         rep.violation("standin.native-covariance", {"native_result": msg, "script": REPLAY.format(seed=seed)})
+    # level-2 evaluation for all path lengths and pixel counts (checks/l2sym.py): direct form 'local frame placed in the global frame' of every element
+    from checks import l2sym
+
+    l2sym.report_fails(rep, l2sym.run(rep, tier, fams=['A'], stride=None))
     return rep.finish()
